@@ -478,7 +478,7 @@ REQUIRED = [
 ]
 
 # wall-clock safety net only (the machine is shared; bounds are sized by CPU seconds / 16)
-TIME_BUDGET = {"quick": 1800, "thorough": 14400}
+TIME_BUDGET = {"quick": 3600, "thorough": 21600}
 
 
 def describe(tier):
